@@ -72,6 +72,10 @@ pub trait DrainDyn<T> {
     /// `skip(k).collect()` resp. `step_by(k + 1).collect()`
     fn skip_collect(self: Box<Self>, k: usize) -> Vec<T>;
     fn step_by_collect(self: Box<Self>, k: usize) -> Vec<T>;
+    /// internal iteration: `fold` from the front / `rfold` from the back, collecting in visit order
+    fn fold_collect(self: Box<Self>) -> Vec<T>;
+    fn rfold_collect(self: Box<Self>) -> Vec<T>;
+    fn rev_last(self: Box<Self>) -> Option<T>;
 }
 
 impl<const N: usize, T: Debug> DrainDyn<T> for Drain<'_, N, T> {
@@ -98,6 +102,21 @@ impl<const N: usize, T: Debug> DrainDyn<T> for Drain<'_, N, T> {
     }
     fn step_by_collect(self: Box<Self>, k: usize) -> Vec<T> {
         (*self).step_by(k + 1).collect()
+    }
+    fn fold_collect(self: Box<Self>) -> Vec<T> {
+        (*self).fold(Vec::new(), |mut v, x| {
+            v.push(x);
+            v
+        })
+    }
+    fn rfold_collect(self: Box<Self>) -> Vec<T> {
+        (*self).rfold(Vec::new(), |mut v, x| {
+            v.push(x);
+            v
+        })
+    }
+    fn rev_last(self: Box<Self>) -> Option<T> {
+        (*self).rev().last()
     }
     fn next(&mut self) -> Option<T> {
         Iterator::next(self)
@@ -129,6 +148,8 @@ pub trait IntoIterDyn<T> {
     fn collect_vec(self: Box<Self>) -> Vec<T>;
     fn nth(&mut self, k: usize) -> Option<T>;
     fn nth_back(&mut self, k: usize) -> Option<T>;
+    fn fold_collect(self: Box<Self>) -> Vec<T>;
+    fn rfold_collect(self: Box<Self>) -> Vec<T>;
 }
 
 impl<const N: usize, T: Debug + Clone + 'static> IntoIterDyn<T> for IntoIter<N, T> {
@@ -159,6 +180,18 @@ impl<const N: usize, T: Debug + Clone + 'static> IntoIterDyn<T> for IntoIter<N, 
     }
     fn nth_back(&mut self, k: usize) -> Option<T> {
         DoubleEndedIterator::nth_back(self, k)
+    }
+    fn fold_collect(self: Box<Self>) -> Vec<T> {
+        (*self).take(N + 2).fold(Vec::new(), |mut v, x| {
+            v.push(x);
+            v
+        })
+    }
+    fn rfold_collect(self: Box<Self>) -> Vec<T> {
+        (*self).rev().take(N + 2).fold(Vec::new(), |mut v, x| {
+            v.push(x);
+            v
+        })
     }
 }
 
